@@ -149,7 +149,7 @@ def run(ctx: Context) -> None:
         shape_fi, cf_shape = topology_shape(ctx, f"{GRID}.CFGridTopology")
         ak_fi, ak_shape = topology_shape(ctx, f"{ARAKAWA}.ArakawaCGridTopology")
         for qual, shape_txt, shape_syms, dims_handles in (
-                (f"{GRID}.CFGrid.make_clip_mask", 'topology.shape', cf_shape, ['y_dimension', 'x_dimension']),
+                (f"{GRID}.CFGrid.make_clip_mask", 'self.topology.shape', cf_shape, ['y_dimension', 'x_dimension']),
                 (f"{ARAKAWA}.ArakawaC.make_clip_mask", 'self.face.shape', ak_shape, ['j_dimension', 'i_dimension'])):
             fi = ctx.func(qual)
             flow = ctx.flow(fi)
@@ -198,7 +198,7 @@ def run(ctx: Context) -> None:
                     d = kwarg(das[0], 'dims')
                     dl = flow.resolve(d) if d is not None else None
                     ok = (norm_text(kwarg(das[0], 'data') or das[0].args[0]) == mname and isinstance(dl, (ast.List, ast.Tuple))
-                          and [norm_text(e) for e in dl.elts] == [f"topology.{h}" for h in dims_handles])
+                          and [norm_text(e) for e in dl.elts] == [f"self.topology.{h}" for h in dims_handles])
                 ctx.check('R07.2', ok, "the mask variable is declared on [y_dimension, x_dimension], matching the array's axes", fi, das[0] if das else fi.node)
             else:
                 cm = [c for c in calls_in(fi) if callee(ctx, fi, c) == f"{ARAKAWA}.c_mask_from_centres"]
